@@ -90,6 +90,8 @@ REQUIRED_C14 = (["transport_usb_write_cases", "transport_usb_write_len_multiple_
                 ["transport_%s_frames_multiple_of_mps" % d for d in USB_DRIVERS] +
                 ["transport_%s_rf_frames_multiple_of_mps_multi_packet" % d for d in USB_DRIVERS] +
                 ["transport_%s_zlp_seen" % d for d in USB_DRIVERS] +
+                ["transport_%s_payload_with_start_code" % d for d in USB_DRIVERS + TTY_DRIVERS] +
+                ["transport_tty_read_extended_frames_over_five"] +
                 ["transport_%s_split_responses_ok" % d for d in TTY_DRIVERS] +
                 ["transport_%s_short_read_responses" % d for d in TTY_DRIVERS])
 ASSUMPTIONS = [
@@ -614,19 +616,26 @@ def _pattern(rng, n):
         return bytes(n)
     if r < 0.16:
         return b"\xff" * n
-    return rng.randbytes(n)
+    data = rng.randbytes(n)
+    if r < 0.36 and n >= 3:
+        # what delimits frames on the link, inside a payload: start code, ACK, NACK, the extended frame marker
+        pat = rng.choice([b"\x00\x00\xff", bytes(F.ACK), bytes(F.NACK), b"\x00\x00\xff\xff\xff", b"\x00\xff"])[:n]
+        at = rng.choice([0, n - len(pat), rng.randrange(0, n - len(pat) + 1)])
+        data = data[:at] + pat + data[at + len(pat):]
+    return data
 
 
-def _errno_clause(e, want_timeout):
-    """the clause an exception breaks (None = fine): must be IOError; ETIMEDOUT exactly for time-outs"""
+def _errno_clause(e, want_timeout, R=None):
+    """the clause an exception breaks (None = fine): must be IOError; ETIMEDOUT exactly for time-outs.  Any other
+    link error only has to be an IOError (see ASSUMPTIONS): one without errno is counted, not judged"""
     if not isinstance(e, IOError):
         return "escape/" + exc_sig(e)
     if want_timeout and e.errno != errno.ETIMEDOUT:
         return "timeout-without-ETIMEDOUT"
     if not want_timeout and e.errno == errno.ETIMEDOUT:
         return "error-reported-as-timeout"
-    if e.errno is None:
-        return "ioerror-without-errno"
+    if e.errno is None and R is not None:
+        R.count("transport_ioerror_without_errno_not_judged")
     return None
 
 
@@ -657,7 +666,7 @@ def usb_write_case(V, R, case, tr=None, pipe=None):
             else:
                 R.count("transport_usb_write_fault_not_reached")
             return
-        clause = _errno_clause(exc, fault[1] == "timeout")
+        clause = _errno_clause(exc, fault[1] == "timeout", R)
         if clause:
             V.violation("transport/usb/write/%s/%s" % (clause, fault[1]),
                         "USB.write: libusb %s at bulkWrite #%d surfaced as %r" % (USB_EXC[fault[1]], fault[0], exc), case)
@@ -739,7 +748,7 @@ def usb_read_case(V, R, case, tr=None, pipe=None):
         V.violation("transport/usb/read/returned-instead-of-ioerror/" + what, "USB.read returned %r (%s)" % (
             None if ret is None else bytes(ret[:16]), what), case)
         return
-    clause = _errno_clause(exc, what == "timeout")
+    clause = _errno_clause(exc, what == "timeout", R)
     if clause:
         V.violation("transport/usb/read/%s/%s" % (clause, what), "USB.read: %s surfaced as %r" % (what, exc), case)
         return
@@ -789,7 +798,8 @@ def _tty_frames(rng, tier):
     for n in lens:
         data = bytes([0xD5, rng.randrange(0, 256) | 1]) + rng.randbytes(max(0, n - 2))
         out.append(("normal", F.build_frame(data[:n], extended=False)))
-    for n in ([1, 255, 256, 265, 511] if tier == "quick" else [1, 2, 100, 255, 256, 257, 263, 264, 265, 300, 511, 512, 600]):
+    for n in ([1, 2, 7, 100, 254, 255, 256, 257, 264, 265, 300, 511] if tier == "quick" else
+              [1, 2, 3, 7, 100, 254, 255, 256, 257, 263, 264, 265, 266, 300, 511, 512, 600]):
         data = bytes([0xD5, 0x43]) + rng.randbytes(max(0, n - 2))
         out.append(("extended", F.build_frame(data[:n], extended=True)))
     return out
@@ -860,8 +870,7 @@ def tty_read_case(V, R, case, tr=None, line=None):
         pos += len(consumed)
         if exc is not None:
             if exc.errno is None and not case.get("port_error"):
-                V.violation("transport/tty/read/ioerror-without-errno/%s" % cls, "TTY.read raised %r" % (exc,), case)
-                return
+                R.count("transport_ioerror_without_errno_not_judged")       # a link error only has to be an IOError
             R.count("transport_tty_read_hostile_ioerror")
             continue
         if ret is None or bytes(ret) != consumed:
@@ -918,6 +927,7 @@ def run_tty_level(R, rng, tier):
     for n in (1, 9, 300):
         tty_write_case(V, R, {"part": "tty-write", "frame": _pattern(rng, n), "fault": True}, tr, line)
     frames = _tty_frames(rng, tier)
+    ext_seen = set()
     C = lambda **kw: dict(kw, part="tty-read")
     for label, f in frames:
         ext = label == "extended"
@@ -926,6 +936,9 @@ def run_tty_level(R, rng, tier):
             R.count("transport_tty_read_exact")
             if ext:
                 R.count("transport_tty_read_extended_frames")
+                ext_seen.add(len(f))
+                if len(ext_seen) == 6:
+                    R.count("transport_tty_read_extended_frames_over_five")
         # back to back: ACK immediately followed by the response is the regular case.  (Response frames are the last
         # thing a chip sends, so "a frame followed by another frame" is not judged: TTY.read takes a normal frame
         # with LEN = FFh for an extended one, reads on until the time-out and returns the right frame only when
@@ -1298,6 +1311,8 @@ def run_driver(R, rng, tier, driver, mps_list, lengths=None):
             if n > ctx.max_send:
                 continue
             case = {"driver": driver, "mps": mps, "data": _pattern(rng, n), "rlen": (n * 5 + 3) % (cap + 1)}
+            if b"\x00\x00\xff" in case["data"]:
+                R.count("transport_%s_payload_with_start_code" % driver)
             if not ctx.usb:
                 r = n % 4
                 if r == 1:
